@@ -4,6 +4,21 @@ import json, os
 V = os.path.dirname(os.path.dirname(os.path.abspath(__file__)))
 
 CHECKS = {
+    "C01": dict(
+        text="Coq theorems, every schedule: every result handed to a caller was sent by the peer for that call's own seqno (no cross-talk), call seqnos are pairwise distinct, a call is in the pending table exactly while outstanding, the caller's frame decodes to exactly its argument and tags under every legal encoding, reply frames are whole. The harness runs N of our calls answered in every one of the N! orders mixed with M incoming calls/notifications whose handlers finish in every order, generated values and tag maps, delayed replies, cancellations and not-found calls, and checks at quiescence: one invocation per delivered request with exactly the supplied argument/tags, exactly one reply per returned handler carrying its own result, never two, no cross-talk.",
+        note="KNOWN FINDING (not repaired): a handler result whose reply exceeds the frame limit gets no reply at all. 'Exactly one reply is eventually sent' is checked at quiescence on the implementation; the model proves at-most-once and routing. Trusted: Coq kernel, extraction + OCaml glue, Go harness.",
+        technique="Coq proof (LTS invariants over all schedules; monitor acceptance) + exhaustive completion orders on the implementation",
+        design="6/C01"),
+    "C08": dict(
+        text="Coq theorems (safety form of promptness): once its context has ended a caller blocked at the hand-off or either wait always has a step of its own, whatever writer and reader do; a call that returned the context's error after its frame was handed to the writer has queued a cancel frame with its seqno, which can always move and never precedes the call frame; a cancellation reaches exactly its handler. The harness cancels / lets time out one call while library goroutines are parked at each public hook, with the peer responsive, silent or not reading, and feeds cancel frames right behind their call frames (also on a single P).",
+        note="PARTIAL: 'promptly' is the harness' 5 s bound; cancellation instants are the public hooks, not every statement. Trusted: as C03.",
+        technique="Coq proof (enabledness and queueing invariants over all schedules) + cancellation sweep over public hooks on the implementation",
+        design="6/C08"),
+    "C12": dict(
+        text="The full property is REFUTED as a theorem about the faithful model (the receive goroutine decodes into the caller's buffer after the look-up with no ordering against the caller's return), with two witnesses that replay on the implementation (cancel/timeout/close while the reply is between look-up and decode; a duplicated reply while the caller is between taking its reply and returning - the second was found by the proof attempt). Proved: the buffer is only ever written by a reply carrying that call's seqno, and never after return on schedules where no call returns while its reply is under decode. The harness parks the reply at every public point between look-up and delivery while the call returns by cancel, deadline or close, plus late and duplicated replies and a blocked send notifier.",
+        note="KNOWN FINDINGS (not repaired): two signatures, see known_findings.json. Any other late write (e.g. a reply arriving after the call was removed from the table) is still reported.",
+        technique="Coq proof (refutation with replayable witness + partial theorems) + park sweep on the implementation",
+        design="6/C12"),
     "C07": dict(
         text="Coq theorems: under every schedule of local closers, the receive loop's exit and observers, Done closes once, IsConnected is its negation and never returns, err() is nil before and one fixed non-nil value after (also for a local Close or a loop that was never started); the receive loop goes on exactly for messages and the three not-found classes (the source's classification lists are regenerated). The harness runs traffic histories with not-found calls/notifications and stray responses/cancellations interleaved with valid calls both ways, every fatal class, and Close raced with the loop's exit in every order while three goroutines poll the accessors.",
         note="Trusted: Coq kernel, extraction + OCaml glue, Go harness. The not-found reply path is checked on the implementation (reply frame with the same seqno naming what is missing; no handler runs; later calls succeed), not modelled as an LTS.",
